@@ -1,7 +1,10 @@
 (** The pipeline model instantiated with the construction orders regenerated from cli.py. *)
 From Coq Require Import ZArith List Bool.
-From CV Require Import Model.Pipeline Generated.Orders.
+From CV Require Import Model.Pipeline Model.Paired Generated.Orders.
 Import ListNotations.
 
 Definition run_cli (o : options) (reads : list read) : report := run modifier_order filter_order o reads.
 Definition process_cli (o : options) (r : read) : outcome := process_read modifier_order filter_order o r.
+
+Definition prun_cli (p : poptions) (pairs : list (read * read)) : preport := prun modifier_order filter_order p pairs.
+Definition process_pair_cli (p : poptions) (rr : read * read) : poutcome := process_pair modifier_order filter_order p rr.
